@@ -566,6 +566,21 @@ def linecol_updates(fn):
                 col_steps.append((n, b))
     if line_incs or col_steps:
         return line_incs, col_steps
+    # `chars().fold((1, 1), |(line, col), c| if c == '\n' { (line + 1, 1) } else { (line, col + 1) })`
+    for n in walk(fn["body"]):
+        if kind(n) == "MethodCall" and n["m"] == "fold" and len(n["args"]) == 2 and kind(peel(n["args"][1])) == "Closure":
+            for leaf in hirq.tail_leaves(peel(n["args"][1])["body"]):
+                v = peel(leaf)
+                if kind(v) == "Tup" and len(v["elems"]) == 2:
+                    a, b = [peel(x) for x in v["elems"]]
+                    if kind(a) == "Binary" and a["op"] == "+":
+                        line_incs.append((v, a["r"], b))
+                    elif kind(b) == "Binary" and b["op"] == "+":
+                        col_steps.append((v, b["r"]))
+                    else:
+                        col_steps.append((v, b))
+    if line_incs or col_steps:
+        return line_incs, col_steps
     # two locals returned as a tuple
     ids = None
     for leaf in hirq.tail_leaves(fn["body"]) + [x["e"] for x in walk(fn["body"]) if kind(x) == "Ret" and x.get("e") is not None]:
